@@ -88,7 +88,6 @@ pub fn areas() -> Vec<&'static str> {
         "c18",
         "c19",
         "c20",
-        "tcploop",
     ]
 }
 
